@@ -1629,3 +1629,452 @@ Proof.
   destruct Ha as (m & Hm & Hc & Hi). rewrite Hm, Hc in *. rewrite Nat.sub_diag in B1. simpl in B1.
   rewrite A1, B1. split; [apply in_seq; lia|auto].
 Qed.
+
+(* ================================================================== the executable acceptor *)
+Lemma existsb_path_in p l : existsb (path_eqb p) l = true <-> In p l.
+Proof.
+  rewrite existsb_exists. split.
+  - intros (x & Hx & He). apply path_eqb_eq in He. subst; auto.
+  - intro H. exists p. split; auto. apply path_eqb_refl.
+Qed.
+
+Lemma nodup_paths_in p l : In p (nodup_paths l) <-> In p l.
+Proof.
+  induction l as [|x r IH]; simpl; [tauto|].
+  destruct (existsb (path_eqb x) r) eqn:E.
+  - rewrite IH. apply existsb_path_in in E. split; auto. intros [->|H]; auto.
+  - simpl. rewrite IH. tauto.
+Qed.
+
+Lemma graph_word_no_owner gq L : ~ In gq (map owner L) -> graph_word gq L = [].
+Proof.
+  unfold graph_word. induction L as [|e L IH]; simpl; auto. intro H.
+  destruct (path_eqb (owner e) gq) eqn:E.
+  - apply path_eqb_eq in E. exfalso. apply H. auto.
+  - rewrite andb_false_r. apply IH. tauto.
+Qed.
+
+(* declarative reading of the acceptor: every event is addressed to a graph, and the word of
+   EVERY graph path is a prefix of a lifecycle / a complete lifecycle *)
+Definition LogWf (L : list event) : Prop :=
+  (forall e, In e L -> well_addressed e = true) /\ forall gq, ast_bad (Aof L gq) = false.
+Definition LogClosed (L : list event) : Prop := forall gq, ast_final (Aof L gq) = true.
+
+Lemma log_wf_iff L : log_wf L = true <-> LogWf L.
+Proof.
+  unfold log_wf, LogWf. rewrite andb_true_iff, !forallb_forall. split.
+  - intros [H1 H2]. split; auto. intro gq. rewrite Aof_eq.
+    destruct (in_dec (list_eq_dec Nat.eq_dec) gq (map owner L)) as [Hin|Hn].
+    + apply negb_true_iff. apply H2. unfold owners. apply nodup_paths_in. auto.
+    + rewrite graph_word_no_owner; auto.
+  - intros [H1 H2]. split; auto. intros gq _. apply negb_true_iff. apply H2.
+Qed.
+
+Lemma log_closed_iff L : log_closed L = true <-> LogClosed L.
+Proof.
+  unfold log_closed, LogClosed. rewrite forallb_forall. split.
+  - intros H gq. rewrite Aof_eq.
+    destruct (in_dec (list_eq_dec Nat.eq_dec) gq (map owner L)) as [Hin|Hn].
+    + apply H. unfold owners. apply nodup_paths_in. auto.
+    + rewrite graph_word_no_owner; auto.
+  - intros H gq _. apply H.
+Qed.
+
+Lemma lifecycle_ok_iff L : lifecycle_ok L = true <-> LogWf L /\ LogClosed L.
+Proof. unfold lifecycle_ok. rewrite andb_true_iff, log_wf_iff, log_closed_iff. tauto. Qed.
+
+(* ================================================================== when nothing can leak *)
+(* which notification kinds an operation can emit *)
+Definition emits (K : ekind -> bool) (ev : list event) : Prop := forallb (fun e => K (e_kind e)) ev = true.
+
+Lemma emits_nil K : emits K [].
+Proof. reflexivity. Qed.
+Lemma emits_app K a b : emits K a -> emits K b -> emits K (a ++ b).
+Proof. unfold emits. intros Ha Hb. rewrite forallb_app, Ha, Hb. reflexivity. Qed.
+Lemma emits_one K k t p n : K k = true -> emits K [Ev k t p n].
+Proof. unfold emits. simpl. intros ->. reflexivity. Qed.
+Lemma emits_opt {X} K (o : option X) k t p n : (o <> None -> K k = true) -> emits K (opt_ev o (Ev k t p n)).
+Proof. destruct o; simpl; intro H; [apply emits_one; apply H; discriminate|apply emits_nil]. Qed.
+Lemma emits_weaken (K K' : ekind -> bool) ev : (forall k, K k = true -> K' k = true) -> emits K ev -> emits K' ev.
+Proof. unfold emits. intros H. apply forallb_impl. intros e. apply H. Qed.
+
+Definition KS0 (k : ekind) : bool := match k with BPG | APG | BPN | APN | HP => true | _ => false end.
+Definition KS (k : ekind) : bool := match k with BPG | APG | PGF | BPN | APN | PNF | HP => true | _ => false end.
+Definition KE (k : ekind) : bool := match k with BGE | AGE | BEN | AEN | HE => true | _ => false end.
+Definition KT0 (k : ekind) : bool := match k with BSG | ASG | BSN | ASN | HS => true | _ => false end.
+Definition KTA (k : ekind) : bool :=
+  match k with BSG | ASG | SGF | BSN | ASN | SNF | HS | BPN | APN | HP => true | _ => false end.
+Definition KTS (k : ekind) : bool := KT0 k || KS k.
+
+Definition no_stop_faults (pl : plan) : Prop := forall p k, pl p PStop k = false.
+Definition no_start_faults (pl : plan) : Prop := forall p k, pl p PStart k = false.
+
+Lemma emits_cons K e l : K (e_kind e) = true -> emits K l -> emits K (e :: l).
+Proof. unfold emits. simpl. intros -> ->. reflexivity. Qed.
+
+Ltac emk := repeat first [ apply emits_nil | assumption | apply emits_cons; [solve [auto]|]
+                         | apply emits_app | apply emits_one; solve [auto] ].
+
+Ltac em := repeat first [apply emits_nil | apply emits_app | (apply emits_one; reflexivity)
+                         | (apply emits_opt; intro; try reflexivity; try congruence)].
+
+(* stop: generic in the kind set K that the per-node operation respects *)
+Lemma stop_loop_emits stop1 root gp t K (strict : bool) :
+  K BPN = true -> K APN = true -> (strict = false -> K PNF = true) ->
+  forall l i l' ev f,
+  Forall (fun c => forall p u c' e g, stop1 p u c = (c', e, g) -> emits K e /\ (strict = true -> g = None)) l ->
+  stop_loop stop1 root gp t i l = (l', ev, f) -> emits K ev /\ (strict = true -> f = None).
+Proof.
+  intros K1 K2 K3. induction l as [|c r IH]; intros i l' ev f Hs Hrun; simpl in Hrun.
+  - inversion Hrun; subst. split; auto. apply emits_nil.
+  - inversion Hs as [|? ? Hc Hr]; subst.
+    destruct (stop_loop stop1 root gp t (S i) r) as [[r' ev1] f1] eqn:E1.
+    destruct (stop1 (gp ++ [i]) t c) as [[c' ev2] f2] eqn:E2.
+    inversion Hrun; subst; clear Hrun.
+    destruct (IH _ _ _ _ Hr E1) as [M1 N1]. destruct (Hc _ _ _ _ _ E2) as [M2 N2].
+    split.
+    + emk. apply emits_opt. intro Hne.
+      destruct strict; [rewrite N2 in Hne; auto; congruence|auto].
+    + intro Hst. rewrite N1, N2; auto.
+Qed.
+
+Lemma stop_node_emits pl K (strict : bool) :
+  K BPN = true -> K APN = true -> K BPG = true -> K APG = true -> K HP = true ->
+  (strict = false -> K PNF = true /\ K PGF = true) -> (strict = true -> no_stop_faults pl) ->
+  forall n p t c' ev f, stop_node pl p t n = (c', ev, f) -> emits K ev /\ (strict = true -> f = None).
+Proof.
+  intros K1 K2 K3 K4 K5 K6 Hns.
+  induction n as [per st nx cs ce cp|st gs gt ch IH] using node_ind'; intros p t c' ev f Hrun; simpl in Hrun.
+  - destruct st; inversion Hrun; subst; clear Hrun.
+    + split; [apply emits_one; auto|]. intro Hs. rewrite (Hns Hs). reflexivity.
+    + split; auto. apply emits_nil.
+  - destruct st; [|inversion Hrun; subst; split; auto; apply emits_nil].
+    unfold stop_graph_with in Hrun. destruct gs.
+    + destruct (stop_loop (fun q u c => stop_node pl q u c) false p gt 0 ch) as [[l' ev1] f1] eqn:E1.
+      inversion Hrun; subst; clear Hrun.
+      assert (Hs : Forall (fun c => forall p u c' e g, stop_node pl p u c = (c', e, g) -> emits K e /\ (strict = true -> g = None)) ch).
+      { eapply Forall_impl; [|exact IH]. intros c Hc. exact Hc. }
+      destruct (stop_loop_emits _ false p gt K strict K1 K2 (fun H => proj1 (K6 H)) _ _ _ _ _ Hs E1) as [M1 N1].
+      split; auto. emk. apply emits_opt. intro Hne.
+      destruct strict; [rewrite N1 in Hne; auto; congruence|apply K6; auto].
+    + inversion Hrun; subst. split; auto. apply emits_nil.
+Qed.
+
+Lemma eval_loop_emits eval1 due1 root gp t : forall l i l' ev f,
+  Forall (fun c => forall p u c' e g, eval1 p u c = (c', e, g) -> emits KE e) l ->
+  eval_loop eval1 due1 root gp t i l = (l', ev, f) -> emits KE ev.
+Proof.
+  induction l as [|c r IH]; intros i l' ev f Hs Hrun; simpl in Hrun.
+  - inversion Hrun; subst. apply emits_nil.
+  - inversion Hs as [|? ? Hc Hr]; subst. destruct (due1 t c).
+    + destruct (eval1 (gp ++ [i]) t c) as [[c1 ev1] f1] eqn:E1. pose proof (Hc _ _ _ _ _ E1) as M1.
+      destruct f1.
+      * inversion Hrun; subst. emk.
+      * destruct (eval_loop eval1 due1 root gp t (S i) r) as [[r' ev2] f2] eqn:E2.
+        inversion Hrun; subst. pose proof (IH _ _ _ _ Hr E2). emk.
+    + destruct (eval_loop eval1 due1 root gp t (S i) r) as [[r' ev2] f2] eqn:E2.
+      inversion Hrun; subst. eapply IH; eauto.
+Qed.
+
+Lemma eval_node_emits pl : forall n p t c' ev f, eval_node pl p t n = (c', ev, f) -> emits KE ev.
+Proof.
+  induction n as [per st nx cs ce cp|st gs gt ch IH] using node_ind'; intros p t c' ev f Hrun; simpl in Hrun.
+  - destruct st; [destruct (pl p PEval ce)|]; inversion Hrun; subst; emk.
+  - destruct st; [|inversion Hrun; subst; emk].
+    unfold eval_graph_with in Hrun. destruct gs; [|inversion Hrun; subst; emk].
+    destruct (eval_loop (fun q u c => eval_node pl q u c) due false p t 0 ch) as [[l' ev1] f1] eqn:E1.
+    assert (M : emits KE ev1).
+    { eapply eval_loop_emits; [|exact E1]. eapply Forall_impl; [|exact IH]. intros c Hc. exact Hc. }
+    inversion Hrun; subst. emk.
+Qed.
+
+(* start: K must contain the start kinds; failing starts need SNF/SGF and the rollback's kinds *)
+Lemma start_loop_emits start1 stop1 root gp t K (strict : bool) :
+  K BSN = true -> K ASN = true ->
+  (strict = false -> K SNF = true /\ K BPN = true /\ K APN = true /\ (forall c p u c' e g, stop1 p u c = (c', e, g) -> emits K e /\ (g <> None -> K PNF = true))) ->
+  forall l i l' ev f,
+  Forall (fun c => forall p u c' e g, start1 p u c = (c', e, g) -> emits K e /\ (strict = true -> g = None)) l ->
+  start_loop start1 stop1 root gp t i l = (l', ev, f) -> emits K ev /\ (strict = true -> f = None).
+Proof.
+  intros K1 K2 K3. induction l as [|c r IH]; intros i l' ev f Hs Hrun; simpl in Hrun.
+  - inversion Hrun; subst. split; auto. apply emits_nil.
+  - inversion Hs as [|? ? Hc Hr]; subst.
+    destruct (start1 (gp ++ [i]) t c) as [[c1 ev1] f1] eqn:E1. destruct (Hc _ _ _ _ _ E1) as [M1 N1].
+    destruct f1 as [f1|].
+    + inversion Hrun; subst; clear Hrun. destruct strict; [discriminate (N1 eq_refl)|].
+      destruct (K3 eq_refl) as (K4 & _). split; [|discriminate]. emk.
+    + destruct (start_loop start1 stop1 root gp t (S i) r) as [[r' ev2] f2] eqn:E2.
+      destruct (IH _ _ _ _ Hr E2) as [M2 N2].
+      destruct f2 as [[f2 ab]|].
+      * destruct strict; [discriminate (N2 eq_refl)|]. destruct (K3 eq_refl) as (K4 & K5 & K6 & K7).
+        destruct ab.
+        -- inversion Hrun; subst. split; [emk|discriminate].
+        -- destruct (stop1 (gp ++ [i]) t c1) as [[c2 ev3] f3] eqn:E3. destruct (K7 _ _ _ _ _ _ E3) as [M3 N3].
+           inversion Hrun; subst. split; [|discriminate]. emk. apply emits_opt. exact N3.
+      * inversion Hrun; subst. split; [emk|auto].
+Qed.
+
+Lemma start_graph_emits start1 stop1 root gp gs gt ch t K (strict : bool) gs' gt' ch' ev f :
+  K BSN = true -> K ASN = true -> K BSG = true -> K ASG = true ->
+  (strict = false -> K SGF = true /\ K SNF = true /\ K BPN = true /\ K APN = true /\
+                     (forall c p u c' e g, stop1 p u c = (c', e, g) -> emits K e /\ (g <> None -> K PNF = true))) ->
+  Forall (fun c => forall p u c' e g, start1 p u c = (c', e, g) -> emits K e /\ (strict = true -> g = None)) ch ->
+  start_graph_with start1 stop1 root gp gs gt ch t = (gs', gt', ch', ev, f) ->
+  emits K ev /\ (strict = true -> f = None).
+Proof.
+  intros K1 K2 K3 K4 K5 Hs Hrun. unfold start_graph_with in Hrun.
+  destruct gs; [inversion Hrun; subst; split; auto; apply emits_nil|].
+  destruct (start_loop start1 stop1 root gp t 0 ch) as [[l' ev1] fr] eqn:E1.
+  assert (K5' : strict = false -> K SNF = true /\ K BPN = true /\ K APN = true /\
+                (forall c p u c' e g, stop1 p u c = (c', e, g) -> emits K e /\ (g <> None -> K PNF = true))).
+  { intro H. destruct (K5 H) as (_ & H1 & H2 & H3 & H4). auto. }
+  destruct (start_loop_emits _ _ root gp t K strict K1 K2 K5' _ _ _ _ _ Hs E1) as [M1 N1].
+  destruct fr as [[f0 ab]|]; inversion Hrun; subst.
+  - destruct strict; [discriminate (N1 eq_refl)|]. destruct (K5 eq_refl) as (K6 & _).
+    split; [emk|discriminate].
+  - split; [emk|auto].
+Qed.
+
+Lemma start_node_emits pl K (strict : bool) :
+  K BSN = true -> K ASN = true -> K BSG = true -> K ASG = true -> K HS = true ->
+  (strict = true -> no_start_faults pl) ->
+  (strict = false -> K SGF = true /\ K SNF = true /\ K BPN = true /\ K APN = true /\
+                     (forall c p u c' e g, stop_node pl p u c = (c', e, g) -> emits K e /\ (g <> None -> K PNF = true))) ->
+  forall n p t c' ev f, start_node pl p t n = (c', ev, f) -> emits K ev /\ (strict = true -> f = None).
+Proof.
+  intros K1 K2 K3 K4 K5 Hns K6.
+  induction n as [per st nx cs ce cp|st gs gt ch IH] using node_ind'; intros p t c' ev f Hrun; simpl in Hrun.
+  - destruct st; [inversion Hrun; subst; split; auto; apply emits_nil|].
+    destruct (pl p PStart cs) eqn:Ep; inversion Hrun; subst; clear Hrun.
+    + split; [emk|]. intro Hs. rewrite (Hns Hs) in Ep. discriminate.
+    + split; [emk|auto].
+  - destruct st; [inversion Hrun; subst; split; auto; apply emits_nil|].
+    destruct (start_graph_with (fun q u c => start_node pl q u c) (stop_node pl) false p gs gt ch t)
+      as [[[[gs' gt'] ch'] ev'] f'] eqn:E.
+    inversion Hrun; subst; clear Hrun.
+    eapply start_graph_emits; try exact E; auto.
+Qed.
+
+Lemma dispose_loop_emits dispose1 gp K : forall l i l' ev,
+  Forall (fun c => forall p c' e, dispose1 p c = (c', e) -> emits K e) l ->
+  dispose_loop dispose1 gp i l = (l', ev) -> emits K ev.
+Proof.
+  induction l as [|c r IH]; intros i l' ev Hs Hrun; simpl in Hrun.
+  - inversion Hrun; subst. apply emits_nil.
+  - inversion Hs as [|? ? Hc Hr]; subst.
+    destruct (dispose_loop dispose1 gp (S i) r) as [r' ev1] eqn:E1.
+    destruct (dispose1 (gp ++ [i]) c) as [c' ev2] eqn:E2.
+    inversion Hrun; subst. pose proof (IH _ _ _ Hr E1). pose proof (Hc _ _ _ E2). emk.
+Qed.
+
+Lemma dispose_node_emits pl K :
+  (forall n p u c' e g, stop_node pl p u n = (c', e, g) -> emits K e) ->
+  K BPG = true -> K APG = true -> K BPN = true -> K APN = true -> (K PNF = true /\ K PGF = true \/ no_stop_faults pl) ->
+  forall n p c' ev, dispose_node pl p n = (c', ev) -> emits K ev.
+Proof.
+  intros Hstop K1 K2 K3 K4 K5.
+  induction n as [per st nx cs ce cp|st gs gt ch IH] using node_ind'; intros p c' ev Hrun; simpl in Hrun.
+  - inversion Hrun; subst. apply emits_nil.
+  - destruct gs.
+    + destruct (stop_graph_with (stop_node pl) false p true gt ch) as [[[[gs' gt'] ch'] ev'] f'] eqn:E.
+      inversion Hrun; subst; clear Hrun.
+      (* a stop of the child graph = the stop of a started nested node *)
+      assert (Hn : stop_node pl p 0%Z (Nest true true gt ch) = (Nest false gs' gt' ch', ev, f')).
+      { cbn [stop_node]. change (fun q u c => stop_node pl q u c) with (stop_node pl). rewrite E. reflexivity. }
+      eapply Hstop; eauto.
+    + destruct (dispose_loop (fun q c => dispose_node pl q c) p 0 ch) as [ch' ev'] eqn:E.
+      inversion Hrun; subst. eapply dispose_loop_emits; [|exact E].
+      eapply Forall_impl; [|exact IH]. intros c Hc. exact Hc.
+Qed.
+
+Definition allbut (K : ekind -> bool) : Prop :=
+  forall k, k <> SNF -> k <> PNF -> K k = true.
+
+Section LifeEmits.
+  Variable pl : plan.
+  Variable K : ekind -> bool.
+  Hypothesis Kall : allbut K.
+  Hypothesis HnoT : K SNF = false -> no_start_faults pl.
+  Hypothesis HnoP : K PNF = false -> no_stop_faults pl.
+
+  Lemma Kk k : k <> SNF -> k <> PNF -> K k = true.
+  Proof. apply Kall. Qed.
+
+  Lemma stop_node_K : forall n p u c' e g, stop_node pl p u n = (c', e, g) -> emits K e /\ (g <> None -> K PNF = true).
+  Proof.
+    intros n p u c' e g H.
+    assert (K6 : negb (K PNF) = false -> K PNF = true /\ K PGF = true).
+    { intro Hs. apply negb_false_iff in Hs. split; auto. apply Kk; discriminate. }
+    assert (K7 : negb (K PNF) = true -> no_stop_faults pl).
+    { intro Hs. apply negb_true_iff in Hs. auto. }
+    destruct (stop_node_emits pl K (negb (K PNF)) (Kk BPN ltac:(discriminate) ltac:(discriminate))
+                (Kk APN ltac:(discriminate) ltac:(discriminate)) (Kk BPG ltac:(discriminate) ltac:(discriminate))
+                (Kk APG ltac:(discriminate) ltac:(discriminate)) (Kk HP ltac:(discriminate) ltac:(discriminate))
+                K6 K7 n p u c' e g H) as [M N].
+    split; auto. intro Hne. destruct (K PNF) eqn:E; auto; exfalso; apply Hne; apply N; reflexivity.
+  Qed.
+
+  Lemma start_node_K : forall n p u c' e g, start_node pl p u n = (c', e, g) -> emits K e.
+  Proof.
+    intros n p u c' e g H.
+    assert (K6 : negb (K SNF) = true -> no_start_faults pl).
+    { intro Hs. apply negb_true_iff in Hs. auto. }
+    assert (K7 : negb (K SNF) = false -> K SGF = true /\ K SNF = true /\ K BPN = true /\ K APN = true /\
+                 (forall c p u c' e g, stop_node pl p u c = (c', e, g) -> emits K e /\ (g <> None -> K PNF = true))).
+    { intro Hs. apply negb_false_iff in Hs. split; [apply Kk; discriminate|]. split; auto.
+      split; [apply Kk; discriminate|]. split; [apply Kk; discriminate|]. apply stop_node_K. }
+    destruct (start_node_emits pl K (negb (K SNF)) (Kk BSN ltac:(discriminate) ltac:(discriminate))
+                (Kk ASN ltac:(discriminate) ltac:(discriminate)) (Kk BSG ltac:(discriminate) ltac:(discriminate))
+                (Kk ASG ltac:(discriminate) ltac:(discriminate)) (Kk HS ltac:(discriminate) ltac:(discriminate))
+                K6 K7 n p u c' e g H) as [M N].
+    exact M.
+  Qed.
+
+  Lemma eval_node_K : forall n p u c' e g, eval_node pl p u n = (c', e, g) -> emits K e.
+  Proof.
+    intros. eapply emits_weaken; [|eapply eval_node_emits; eauto].
+    intros k Hk. apply Kk; destruct k; simpl in Hk; discriminate.
+  Qed.
+
+  Lemma stop_world_K w w' ev f : stop_world pl w = (w', ev, f) -> emits K ev.
+  Proof.
+    unfold stop_world. intro H.
+    destruct (stop_graph_with (stop_node pl) true [] (w_gs w) (w_gt w) (w_nodes w)) as [[[[gs gt] ch] ev'] f'] eqn:E.
+    inversion H; subst; clear H. unfold stop_graph_with in E. destruct (w_gs w); [|inversion E; subst; apply emits_nil].
+    destruct (stop_loop (stop_node pl) true [] (w_gt w) 0 (w_nodes w)) as [[l' ev1] f1] eqn:E1.
+    assert (MN : emits K ev1 /\ (negb (K PNF) = true -> f1 = None)).
+    { eapply (stop_loop_emits (stop_node pl) true [] (w_gt w) K (negb (K PNF))); [| | | |exact E1];
+        try (apply Kk; discriminate).
+      - intro Hs. apply negb_false_iff in Hs. auto.
+      - apply Forall_forall. intros c _ p u c' e g Hc. destruct (stop_node_K _ _ _ _ _ _ Hc) as [Me Ne].
+        split; auto. intro Hs. apply negb_true_iff in Hs. destruct g; auto. rewrite Ne in Hs; discriminate. }
+    destruct MN as [M N]. inversion E; subst; clear E.
+    assert (K BPG = true) by (apply Kk; discriminate). assert (K APG = true) by (apply Kk; discriminate).
+    emk. apply emits_opt. intro Hne. apply Kk; discriminate.
+  Qed.
+
+  Lemma cycles_K sp e : forall fuel lo w w' ev f, cycles pl sp e fuel lo w = (w', ev, f) -> emits K ev.
+  Proof.
+    induction fuel as [|fuel IH]; intros lo w w' ev f H; simpl in H; [inversion H; apply emits_nil|].
+    destruct (min_next_list lo (w_nodes w)); [|inversion H; apply emits_nil].
+    destruct (e <=? z)%Z; [inversion H; apply emits_nil|].
+    destruct (eval_graph_with (eval_node pl) due true [] (w_gs w) (w_gt w) (w_nodes w) z) as [[[[gs gt] ch] ev1] f1] eqn:E.
+    assert (M1 : emits K ev1).
+    { unfold eval_graph_with in E. destruct (w_gs w); [|inversion E; apply emits_nil].
+      destruct (eval_loop (eval_node pl) due true [] z 0 (w_nodes w)) as [[l' ev0] f0] eqn:E0.
+      inversion E; subst.
+      assert (emits KE ev0).
+      { eapply eval_loop_emits; [|exact E0]. apply Forall_forall. intros c _ p u c' e0 g Hc. eapply eval_node_emits; eauto. }
+      assert (emits K ev0) by (eapply emits_weaken; [|eauto]; intros k Hk; apply Kk; destruct k; simpl in Hk; discriminate).
+      assert (K BGE = true) by (apply Kk; discriminate). assert (K AGE = true) by (apply Kk; discriminate). emk. }
+    destruct f1; [inversion H; subst; auto|].
+    destruct (stop_requested sp ev1); [inversion H; subst; auto|].
+    destruct (cycles pl sp e fuel (z + 1)%Z (W gs gt ch)) as [[w2 ev2] f2] eqn:E2.
+    inversion H; subst. apply emits_app; auto. eapply IH; eauto.
+  Qed.
+
+  Lemma life_K sp cfg w : emits K (full_log pl sp cfg w).
+  Proof.
+    unfold full_log, life. destruct (run pl sp cfg w) as [[w1 ev1] f] eqn:E1.
+    destruct (release pl w1) as [w2 ev2] eqn:E2.
+    apply emits_app.
+    - unfold run in E1. destruct (c_end cfg <=? c_start cfg)%Z; [inversion E1; apply emits_nil|].
+      destruct (start_graph_with (start_node pl) (stop_node pl) true [] (w_gs w) (w_gt w) (w_nodes w) (c_start cfg))
+        as [[[[gs gt] ch] ev0] f0] eqn:E0.
+      assert (M0 : emits K ev0).
+      { destruct (start_graph_emits (start_node pl) (stop_node pl) true [] (w_gs w) (w_gt w) (w_nodes w) (c_start cfg) K (negb (K SNF)) gs gt ch ev0 f0)
+          as [M N]; auto; try (apply Kk; discriminate).
+        - intro Hs. apply negb_false_iff in Hs. split; [apply Kk; discriminate|]. split; auto.
+          split; [apply Kk; discriminate|]. split; [apply Kk; discriminate|]. intros c. apply stop_node_K.
+        - apply Forall_forall. intros c _ p u c' e g Hc. split; [eapply start_node_K; eauto|].
+          intro Hs. apply negb_true_iff in Hs.
+          destruct (start_node_emits pl K true) with (n := c) (p := p) (t := u) (c' := c') (ev := e) (f := g) as [_ N];
+            auto; try (apply Kk; discriminate). intro X; discriminate X. }
+      destruct f0; [inversion E1; subst; auto|].
+      destruct (cycles pl sp (c_end cfg) (c_fuel cfg) (c_start cfg) (W gs gt ch)) as [[w1' ev1'] f1] eqn:Ec.
+      pose proof (cycles_K _ _ _ _ _ _ _ _ Ec) as Mc.
+      destruct f1.
+      + destruct (c_cleanup cfg).
+        * destruct (stop_world pl w1') as [[w2' ev2'] f2] eqn:Es. inversion E1; subst.
+          pose proof (stop_world_K _ _ _ _ Es). emk.
+        * inversion E1; subst. emk.
+      + destruct (stop_world pl w1') as [[w2' ev2'] f2] eqn:Es. inversion E1; subst.
+        pose proof (stop_world_K _ _ _ _ Es). emk.
+    - unfold release in E2. destruct (stop_world pl w1) as [[w1' ev1'] f1] eqn:Es.
+      destruct (dispose_loop (dispose_node pl) [] 0 (w_nodes w1')) as [ch ev3] eqn:Ed.
+      inversion E2; subst. pose proof (stop_world_K _ _ _ _ Es). apply emits_app; auto.
+      eapply dispose_loop_emits; [|exact Ed]. apply Forall_forall. intros c _ p c' e Hc.
+      eapply dispose_node_emits; [| | | | | |exact Hc]; try (apply Kk; discriminate).
+      + intros n q u c0 e0 g Hs. eapply stop_node_K; eauto.
+      + destruct (K PNF) eqn:E; [left; split; auto; apply Kk; discriminate|right; auto].
+  Qed.
+End LifeEmits.
+
+(* symbols of a graph word come from events of that kind *)
+Lemma graph_word_kind gq L k i : In (SN k i) (graph_word gq L) -> exists e, In e L /\ e_kind e = k.
+Proof.
+  unfold graph_word. rewrite in_map_iff. intros (e & He & Hin). apply filter_In in Hin as [Hin _].
+  exists e. split; auto. unfold sym_of in He. destruct (is_graph_kind (e_kind e)); inversion He; auto.
+Qed.
+
+Lemma emits_not_kind K L k : emits K L -> K k = false -> forall e, In e L -> e_kind e <> k.
+Proof.
+  unfold emits. rewrite forallb_forall. intros H Hk e He Heq. specialize (H e He). rewrite Heq in H. congruence.
+Qed.
+
+(* the automaton can reach a leaked state only through "stop node failed" and through
+   "start node failed" *)
+Definition leakpath (a : ast) : bool :=
+  match a with ARollIn _ _ _ true | ARollAborted _ _ | ALeaked _ _ => true | _ => false end.
+Definition rollpath (a : ast) : bool :=
+  match a with ARoll _ _ | ARollIn _ _ _ _ | ARollAborted _ _ | ALeaked _ _ => true | _ => false end.
+
+Lemma leakpath_step a s : leakpath a = false -> (forall i, s <> SN PNF i) -> leakpath (astep a s) = false.
+Proof.
+  intros H Hs. destruct a; destruct s as [k|k j]; destruct k; simpl in *; try discriminate; auto;
+    try (exfalso; eapply Hs; reflexivity);
+    repeat match goal with |- context[match ?x with _ => _ end] => destruct x; simpl; auto end.
+Qed.
+
+Lemma rollpath_step a s : rollpath a = false -> (forall i, s <> SN SNF i) -> rollpath (astep a s) = false.
+Proof.
+  intros H Hs. destruct a; destruct s as [k|k j]; destruct k; simpl in *; try discriminate; auto;
+    try (exfalso; eapply Hs; reflexivity);
+    repeat match goal with |- context[match ?x with _ => _ end] => destruct x; simpl; auto end.
+Qed.
+
+Lemma no_pnf_no_leak : forall w a, leakpath a = false -> (forall i, ~ In (SN PNF i) w) -> leakpath (arun a w) = false.
+Proof.
+  induction w as [|s w IH]; simpl; auto. intros a Ha Hw. apply IH.
+  - apply leakpath_step; auto. intros i ->. apply (Hw i). auto.
+  - intros i Hi. apply (Hw i). auto.
+Qed.
+
+Lemma no_snf_no_leak : forall w a, rollpath a = false -> (forall i, ~ In (SN SNF i) w) -> rollpath (arun a w) = false.
+Proof.
+  induction w as [|s w IH]; simpl; auto. intros a Ha Hw. apply IH.
+  - apply rollpath_step; auto. intros i ->. apply (Hw i). auto.
+  - intros i Hi. apply (Hw i). auto.
+Qed.
+
+Definition KnoPNF (k : ekind) : bool := match k with PNF => false | _ => true end.
+Definition KnoSNF (k : ekind) : bool := match k with SNF => false | _ => true end.
+
+Theorem never_leaks pl sp cfg w :
+  no_stop_faults pl \/ no_start_faults pl ->
+  forall gl, ast_leaked (Aof (full_log pl sp cfg w) gl) = false.
+Proof.
+  intros [H|H] gl; rewrite Aof_eq.
+  - assert (E : emits KnoPNF (full_log pl sp cfg w)).
+    { apply life_K; auto; [intros k H1 H2; destruct k; auto; congruence|intro X; discriminate X]. }
+    assert (L : leakpath (arun AFresh (graph_word gl (full_log pl sp cfg w))) = false).
+    { apply no_pnf_no_leak; auto. intros i Hi. apply graph_word_kind in Hi as (e & He & Hk).
+      eapply emits_not_kind in He; eauto; reflexivity. }
+    destruct (arun AFresh _); simpl in *; auto; discriminate.
+  - assert (E : emits KnoSNF (full_log pl sp cfg w)).
+    { apply life_K; auto; [intros k H1 H2; destruct k; auto; congruence|intro X; discriminate X]. }
+    assert (L : rollpath (arun AFresh (graph_word gl (full_log pl sp cfg w))) = false).
+    { apply no_snf_no_leak; auto. intros i Hi. apply graph_word_kind in Hi as (e & He & Hk).
+      eapply emits_not_kind in He; eauto; reflexivity. }
+    destruct (arun AFresh _); simpl in *; auto; discriminate.
+Qed.
